@@ -52,6 +52,9 @@ pub fn dur() -> BoxedStrategy<D> {
               -3_000_000_000i128..=3_000_000_000).prop_map(move |(a, d)| (a + d).clamp(-m, m)),
         1 => (-10_000_000_000i128..=10_000_000_000),
         1 => (-(1i128 << 40)..(1i128 << 40)).prop_map(|s| s * NS),
+        // the ends of the 64-bit windows of the nanosecond and microsecond accessors, to the nanosecond
+        2 => (proptest::sample::select(vec![i64::MAX as i128, i64::MIN as i128, (i64::MAX as i128) * 1000, (i64::MIN as i128) * 1000, (i64::MAX as i128) * 1000 + 999, m, -m]),
+              prop_oneof![2 => -1500i128..=1500, 1 => proptest::sample::select(vec![0i128, 1, -1, 999, -999, 1000, -1000])]).prop_map(move |(a, d)| (a + d).clamp(-m, m)),
     ]
     .prop_map(D::of)
     .boxed()
